@@ -56,10 +56,12 @@ def rows_cols(t):
 def spec(op, L, R):
     c = promote(comp(L), comp(R))
     if op in CMP:
+        # the operands of a comparison are brought to their common type (the statement's "component type of the
+        # result" cannot be meant literally for 1.5 < 2; for int/uint mixes both readings give int)
         if is_scalar(L) and is_scalar(R):
-            return (OK, INT, None, None)          # operand types of comparisons are not judged
+            return (OK, INT, c, c)
         if is_vec(L) and is_vec(R) and L[2] == R[2]:
-            return (OK, ("vec", INT, L[2]), None, None)
+            return (OK, ("vec", INT, L[2]), with_comp(L, c), with_comp(R, c))
         if is_mat(L) and is_mat(R):
             return (UNDEFINED,)
         return (REJECT,)
